@@ -95,10 +95,10 @@ def write_figures(fig, workdir=None):
     return paths, workdir
 
 
-def build(recipe, workdir=None) -> Built:
+def build_kwargs(recipe, workdir=None):
+    """The user's objects: keyword arguments for RTFDocument (plus dfs and figure files)."""
     kind = recipe.get("kind", "table")
     kw = {}
-    parts = {}
     if recipe.get("page") is not None:
         kw["rtf_page"] = rtf.RTFPage(**_kw(recipe["page"]))
     for key, cls, arg in (
@@ -111,17 +111,15 @@ def build(recipe, workdir=None) -> Built:
     ):
         if recipe.get(key) is not None:
             kw[arg] = make_text_component(cls, recipe[key])
-    parts.update(kw)
     files = []
     dfs = []
     if kind == "figure":
         fig = recipe["figure"]
         paths, wd = write_figures(fig, workdir)
         files = paths
-        fkw = _kw(fig, skip=("files",))
+        fkw = _kw(fig, skip=("files", "single_path"))
         kw["rtf_figure"] = rtf.RTFFigure(figures=paths if not fig.get("single_path") else paths[0], **fkw)
-        doc = rtf.RTFDocument(**kw)
-        return Built(doc, [], recipe, files, parts)
+        return kw, dfs, files
     secs = recipe["sections"]
     if kind == "table":
         sec = secs[0]
@@ -134,7 +132,7 @@ def build(recipe, workdir=None) -> Built:
             kw["rtf_column_header"] = hs
     else:
         dfs = [make_df(s["df"]) for s in secs]
-        kw["df"] = dfs
+        kw["df"] = list(dfs)
         kw["rtf_body"] = [rtf.RTFBody(**_kw(s.get("body", {}))) for s in secs]
         layout = recipe.get("header_layout", "nested")
         if layout == "nested":
@@ -152,8 +150,13 @@ def build(recipe, workdir=None) -> Built:
             hs = make_headers(secs[0].get("headers", "default"))
             if hs is not None:
                 kw["rtf_column_header"] = hs
+    return kw, dfs, files
+
+
+def build(recipe, workdir=None) -> Built:
+    kw, dfs, files = build_kwargs(recipe, workdir)
     doc = rtf.RTFDocument(**kw)
-    return Built(doc, dfs, recipe, files, parts)
+    return Built(doc, dfs, recipe, files, kw)
 
 
 # ---------------------------------------------------------------------------------------------
